@@ -1,3 +1,4 @@
+import re
 """E3: resolved call graph over both crates, SCCs, type graph."""
 from .facts import is_local
 
@@ -40,6 +41,11 @@ def build(F, fanout_traits=True):
                 if fanout_traits:
                     for tk in impls.get((fr["trait"], fr["name"]), []):
                         targets.add(tk)
+                        # a call whose receiver type is a bare type parameter of the caller (`self.inner.on_event(..)` with inner: R)
+                        # descends into a component of the caller's own type: remembered so that cycle rules can set such edges aside
+                        ss = fr.get("substs") or []
+                        if ss and re.fullmatch(r"[A-Z][A-Za-z0-9]*", ss[0] or "") and ss[0] != "Self":
+                            why.setdefault((k, tk), "type-parameter receiver " + ss[0])
             elif ck in F.fns:
                 targets.add(ck)
             for tg in targets:
